@@ -222,7 +222,7 @@ func DialRTSP(addr string) (*RTSPClient, error) {
 	if err != nil {
 		return nil, err
 	}
-	return &RTSPClient{src: &tcpSource{conn: conn, br: bufio.NewReaderSize(conn, 256*1024)}, Timeout: 10 * time.Second}, nil
+	return &RTSPClient{src: &tcpSource{conn: conn, br: bufio.NewReaderSize(conn, 256*1024)}, Timeout: 60 * time.Second}, nil
 }
 
 // DialRTSPWebSocket connects ws://addr/streams<path>[?token=] with sub-protocol "rtsp".
@@ -231,12 +231,12 @@ func DialRTSPWebSocket(addr, path, token string) (*RTSPClient, *http.Response, e
 	if token != "" {
 		u += "?token=" + token
 	}
-	d := websocket.Dialer{Subprotocols: []string{"rtsp"}, HandshakeTimeout: 5 * time.Second}
+	d := websocket.Dialer{Subprotocols: []string{"rtsp"}, HandshakeTimeout: 60 * time.Second}
 	ws, resp, err := d.Dial(u, nil)
 	if err != nil {
 		return nil, resp, err
 	}
-	return &RTSPClient{src: &wsSource{ws: ws}, Timeout: 10 * time.Second}, resp, nil
+	return &RTSPClient{src: &wsSource{ws: ws}, Timeout: 60 * time.Second}, resp, nil
 }
 
 // WSMessageViolations lists WebSocket messages that were not exactly one item (ws transport only).
